@@ -94,9 +94,28 @@ impl Proc {
     /// `sandbox`: directory that is this scenario's disk. The process runs with its cwd inside it,
     /// TMPDIR/HOME/OUT_DIR/... point into it, and `$SANDBOX` in env values is replaced by its path.
     pub fn start(env: &[(String, String)], sandbox: Option<&std::path::Path>) -> HResult<Proc> {
-        let exe = std::env::current_exe().map_err(|e| HostError::Died(e.to_string()))?;
+        let mut exe = std::env::current_exe().map_err(|e| HostError::Died(e.to_string()))?;
+        // the path of the executable and its command line are part of a process' environment too:
+        // VERIF_EXE_NAME = run the host through a hard link of that name inside the sandbox,
+        // VERIF_ARGV     = extra (ignored) command-line arguments
+        let mut extra_args: Vec<String> = vec![];
+        for (k, v) in env {
+            if k == "VERIF_ARGV" {
+                extra_args = v.split(' ').filter(|s| !s.is_empty()).map(|s| s.to_string()).collect();
+            }
+            if k == "VERIF_EXE_NAME" {
+                if let Some(sb) = sandbox {
+                    let dir = sb.join("bin");
+                    let _ = std::fs::create_dir_all(&dir);
+                    let link = dir.join(v);
+                    if link.exists() || std::fs::hard_link(&exe, &link).is_ok() {
+                        exe = link;
+                    }
+                }
+            }
+        }
         let mut cmd = Command::new(exe);
-        cmd.arg("host").stdin(Stdio::piped()).stdout(Stdio::piped()).stderr(Stdio::inherit());
+        cmd.arg("host").args(&extra_args).stdin(Stdio::piped()).stdout(Stdio::piped()).stderr(Stdio::inherit());
         if let Some(sb) = sandbox {
             let sbs = sb.display().to_string();
             let mut cwd = sb.join("cwd");
